@@ -60,17 +60,22 @@ def _register_extras():
 # flight identifiers - as themselves ("small") or as neighbours around a 19-digit composite key ("wide":
 # date + serial, consecutive integers that no float64 can tell apart).  Set per behaviour by run_behaviour.
 WIDE_BASE = 2026011500000000000
-_idr = {'wide': False}
+_idr = {'wide': False, 'zero': False}
 
 
 def cid(k: int) -> int:
-    """abstract identifier -> flight identifier handed to the store"""
+    """abstract identifier -> flight identifier handed to the store (rendering "zero_based": 1, 2, 3 ... are 0, 1, 2 ...
+    - the flight identifier 0 is an identifier like any other)"""
+    if _idr['zero'] and k:
+        return int(k) - 1
     return (WIDE_BASE + int(k)) if (_idr['wide'] and k) else int(k)
 
 
 def aid(c: int) -> int:
     """flight identifier read from the store -> abstract identifier (unknown values are kept, they never match)"""
     c = int(c)
+    if _idr['zero']:
+        return c + 1
     return c - WIDE_BASE if (_idr['wide'] and 0 < c - WIDE_BASE < 100000) else c
 
 
@@ -97,7 +102,7 @@ def make_payload(p: int, fid: int, big: bool = False, missing: str | None = None
     t.n_cruise = n - 2
     t.n_descent = 1
     if fid:
-        t.flight_id = cid(fid)
+        t.flight_id = cid(fid)   # (an abstract 0 means: no identifier)
     if extras:
         t.vx = np.arange(n, dtype=float)
         if missing != 'vm':
@@ -300,6 +305,7 @@ def run_behaviour(beh: dict, big=False, cache_mb=None, skip_bad=False, want=None
     describing the first deviation."""
     warnings.simplefilter('ignore')
     _idr['wide'] = beh.get('idr') == 'wide'
+    _idr['zero'] = beh.get('idr') == 'zero_based'
     r = StoreRunner(big=big, cache_mb=cache_mb)
     r.entry = beh.get('entry', 'factory')
     universe_ids = sorted({it['id'] for it in beh['added'] if it['id']} | {1, 2, 3, 7})
